@@ -219,4 +219,33 @@ def _dynamic(ctx):
                         ctx.violation(f"dynamic:raises-on-reordered-second-fill:{system}:{type(exc).__name__}", exc_text(exc), case_id, sample)
                     else:
                         ctx.harness_error("C08.reordered", exc)
+            # mixed column types: a whole-number column read as integers (as pandas.read_table types "400 461 516") next to
+            # columns with decimals; the integer-typed one comes first
+            if not via_elast and len(S) > 1:
+                try:
+                    import pandas
+                    Bm = laue.invariant_basis(system)
+                    fieldm = FT.invariant_field(rng, system, nrows, integer=True).astype(float)
+                    ks = [k_ for k_ in range(Bm.shape[1]) if rng.random() < 0.6]
+                    if ks:
+                        fieldm = fieldm + (Bm[:, ks] @ rng.uniform(-0.45, 0.45, size=(len(ks), nrows))).T
+                    whole = [s_ for s_ in S if numpy.allclose(fieldm[:, s_], numpy.round(fieldm[:, s_]), atol=1e-9)]
+                    frac = [s_ for s_ in S if s_ not in whole]
+                    if whole and frac:
+                        first = whole[int(rng.integers(0, len(whole)))]
+                        colsm = {"V": numpy.linspace(620.0, 500.0, nrows) if nrows > 1 else numpy.array([560.0]),
+                                 FT.NAMES[first]: numpy.round(fieldm[:, first]).astype(numpy.int64)}
+                        for s_ in S:
+                            if s_ != first:
+                                colsm[FT.NAMES[s_]] = numpy.round(fieldm[:, s_]).astype(numpy.int64) if (s_ in whole and rng.random() < 0.5) else fieldm[:, s_]
+                        outm = FT.frame_moduli(fill_cij(pandas.DataFrame(colsm), system))
+                        ctx.evaluation(f"{system}:integer-typed-first-column-next-to-decimals", (system, n, "mixed"), nontrivial=True)
+                        _check_result(ctx, system, fieldm, S, outm, case_id, cls + "+mixed-column-types")
+                    else:
+                        ctx.count("mixed_dtype_generator_skips")
+                except Exception as exc:
+                    if classify_exception(exc) == "code" or isinstance(exc, Warning):
+                        ctx.violation(f"dynamic:raises-on-mixed-column-types:{system}:{type(exc).__name__}", exc_text(exc), case_id, sample)
+                    else:
+                        ctx.harness_error("C08.mixed", exc)
     ctx.require("fills_judged", 9)
